@@ -246,4 +246,16 @@ PROPS = {
         "level_text": "Exploration: thousands to hundreds of thousands of knot diagrams, crossings and move sequences; cycle conditions are decided exactly, the s-invariant through the relations the statement lists. Right level: input/history/configuration property.",
         "level_note": "Non-torsion is decided modulo a 31-bit prime (one-sided error negligible); ss relations are necessary conditions.",
     },
+    "C19": {
+        "budget_s": {"quick": 150, "thorough": 2400},
+        "floor": {"quick": 300, "thorough": 10000},
+        "rule": "the 23 built-in strongly invertible PD codes, their mirrors, and the same codes with the crossings listed in random orders (sinv_knot_from_code); FF2 with (h,t) in {(0,0),(1,0),(0,1),(1,1)} (reduced only for t=0) "
+                "and F2[H] with (H,0); checks: d^2 = 0 (check_d_all), KhI ranks per degree = homology of the explicitly built Cone(1+tau) over F2 (own cube, tau induced on states and circle labels by e -> (n+1-e) mod n + 1; codes with <= 7 (quick) / 8 crossings), "
+                "symmetric construction without the involutive part = KhHomology::new of the underlying knot, over F2[H]: rank_i = dim Cone at H=1, rank_i + tors_i + tors_{i+1} = dim Cone at H=0, "
+                "ssi unchanged by the listing order, s0 <= s1, s0 = s1 mod 2, ssi(mirror) = (-s1,-s0), reduced = unreduced; distinct = hash(code order, mirror, h, t, reduced)",
+        "assumptions": COMMON_ASSUME + ["no generator of new strongly invertible diagrams exists: inputs are the built-in table under reordering and mirroring", "over F2[H] the cone comparison uses necessary conditions (dimensions at H=0 and H=1), all torsion being H-primary for these graded complexes"],
+        "technique": "reference-model + metamorphic monitor: KhI computed by the library compared with an explicitly constructed mapping cone of 1+tau on an own F2 cube; ssi compared across listing orders, mirrors and variants",
+        "level_text": "Exploration over the available symmetric diagrams x parameters x listing orders (thousands of runs): the cone definition is checked against an independent construction, the invariants through their stated relations. Right level given that the input family is a finite table plus reorderings.",
+        "level_note": "Trusts the own cube and the induced involution (the oracle self-checks that tau maps circles to circles and preserves degree).",
+    },
 }
